@@ -3,11 +3,14 @@
     proofs: proofs/FeesProofs.v; generated constants (dummy unlocking script): gen/Consts.v. *)
 From Coq Require Import List NArith Bool.
 From Coq Require Import Strings.Byte.
-From GoBT Require Import lib.Bytes lib.VarInt model.Tx gen.Consts spec.FeeSpec model.Fees proofs.FeesProofs.
+From GoBT Require Import lib.Bytes lib.VarInt model.Tx gen.Consts spec.FeeSpec model.Fees proofs.FeesProofs proofs.AuditC11.
+From GoBT Require proofs.OrdProofs.
 Import ListNotations.
 Local Open Scope N_scope.
 
-(** total = serialised length = standard + data bytes; data bytes = script bytes of the data-carrier outputs *)
+(** total = serialised length = standard + data bytes; data bytes = script bytes of the data-carrier outputs.
+    (The first conjunct holds by construction of the model: [tx_size] is defined as the length of [tx_bytes]; that
+    Tx.Size() is len(tx.Bytes()) is carried by the correspondence.  The other two are proved.) *)
 Theorem C11_size_partition : forall t,
   let sz := size_with_types t in
   sz_total sz = lenN (tx_bytes false t) /\
@@ -42,12 +45,43 @@ Theorem C11_fee_enough_iff : forall t q b sf df,
 Proof. exact fee_enough_iff. Qed.
 Print Assumptions C11_fee_enough_iff.
 
-(** EstimateIsFeePaidEnough is the same predicate on the estimated final transaction *)
+(** EstimateIsFeePaidEnough is the same predicate on the estimated final transaction.
+    (Holds by construction of the model: it unfolds the definition of [estimate_is_fee_paid_enough]; the statement
+    with content is [C11_estimate_enough_iff] below.) *)
 Theorem C11_estimate_enough_unfold : forall t q b,
   estimate_is_fee_paid_enough t q = FOk b ->
   exists te, estimated_final_tx t = FOk te /\ is_fee_paid_enough te q = FOk b.
 Proof. exact (fun t q b => obind_ok (estimated_final_tx t) (fun te => is_fee_paid_enough te q) b). Qed.
 Print Assumptions C11_estimate_enough_unfold.
+
+(** IsFeePaidEnough is total for a complete quote with positive byte denominators ... *)
+Theorem C11_fee_enough_total : forall t q sf df, q_std q = Some sf -> q_data q = Some df ->
+  r_bytes sf <> 0 -> r_bytes df <> 0 -> exists b, is_fee_paid_enough t q = FOk b.
+Proof. exact fee_enough_total. Qed.
+Print Assumptions C11_fee_enough_total.
+
+(** ... and its other outcomes are exactly: ErrFeeTypeNotFound for a missing fee type, a panic (integer
+    division by zero) for a zero byte denominator; never a process exit *)
+Theorem C11_fee_enough_outcomes : forall t q,
+  match is_fee_paid_enough t q with
+  | FOk _ => exists sf df, q_std q = Some sf /\ q_data q = Some df /\ r_bytes sf <> 0 /\ r_bytes df <> 0
+  | FErr e => e = ErrFeeTypeNotFound /\ (q_std q = None \/ q_data q = None)
+  | FPanic => exists sf df, q_std q = Some sf /\ q_data q = Some df /\ (r_bytes sf = 0 \/ r_bytes df = 0)
+  | FFatal => False
+  end.
+Proof. exact fee_enough_outcomes. Qed.
+Print Assumptions C11_fee_enough_outcomes.
+
+(** EstimateIsFeePaidEnough is true exactly when the transaction's OWN outputs do not exceed its inputs and
+    inputs minus outputs reach the quoted fee of its ESTIMATED size *)
+Theorem C11_estimate_enough_iff : forall t q b sf df sz, wf_tx t -> ~ ambiguous t ->
+  q_std q = Some sf -> q_data q = Some df -> estimate_size_with_types t = FOk sz ->
+  sz_std sz * r_sat sf < two64 -> sz_data sz * r_sat df < two64 ->
+  floor_fee (sz_std sz) sf + floor_fee (sz_data sz) df < two64 ->
+  estimate_is_fee_paid_enough t q = FOk b ->
+  b = (total_out t <=? total_in t) && (quoted_fee sf df (sz_std sz) (sz_data sz) <=? total_in t - total_out t).
+Proof. exact estimate_enough_iff. Qed.
+Print Assumptions C11_estimate_enough_iff.
 
 (** the accumulated totals are the plain sums whenever those fit 64 bits *)
 Theorem C11_totals : forall t,
@@ -105,6 +139,45 @@ Theorem C11_estimate_ge_signed : forall t te ins', wf_tx t -> ~ ambiguous t ->
   tx_size (set_ins t ins') <= tx_size te.
 Proof. exact estimate_ge_signed. Qed.
 Print Assumptions C11_estimate_ge_signed.
+
+(** signing can only lower the quoted fee: the data bytes are the same, the standard bytes shrink *)
+Theorem C11_estimate_fee_ge_signed : forall t te ins' sf df, wf_tx t -> ~ ambiguous t ->
+  estimated_final_tx t = FOk te -> Forall2 sign_rel (tx_ins t) ins' ->
+  let sz := size_with_types (set_ins t ins') in
+  let sze := size_with_types te in
+  sz_data sz = sz_data sze /\ sz_std sz <= sz_std sze /\
+  quoted_fee sf df (sz_std sz) (sz_data sz) <= quoted_fee sf df (sz_std sze) (sz_data sze).
+Proof. exact estimate_fee_ge_signed. Qed.
+Print Assumptions C11_estimate_fee_ge_signed.
+
+(** from raw signatures, in one statement: every unsigned input receives what unlocker.Simple builds - push(
+    Serialise(r, s) ++ hash type), push(33-byte key) - for ANY 0 < r < 2^256 and ANY 0 < s < n (Serialise
+    normalises to low S), signed inputs are left alone: the result is no larger than EstimateSize said *)
+Theorem C11_estimate_ge_lib_signed : forall t n ins', wf_tx t -> ~ ambiguous t ->
+  estimate_size t = FOk n -> Forall2 lib_signed (tx_ins t) ins' ->
+  tx_size (set_ins t ins') <= n.
+Proof. exact estimate_ge_lib_signed. Qed.
+Print Assumptions C11_estimate_ge_lib_signed.
+
+(** ... and its quoted fee is no larger than the quoted fee of the estimate *)
+Theorem C11_estimate_fee_ge_lib_signed : forall t te ins' sf df, wf_tx t -> ~ ambiguous t ->
+  estimated_final_tx t = FOk te -> Forall2 lib_signed (tx_ins t) ins' ->
+  quoted_fee sf df (sz_std (size_with_types (set_ins t ins'))) (sz_data (size_with_types (set_ins t ins'))) <=
+  quoted_fee sf df (sz_std (size_with_types te)) (sz_data (size_with_types te)).
+Proof. exact estimate_fee_ge_lib_signed. Qed.
+Print Assumptions C11_estimate_fee_ge_lib_signed.
+
+(** the predicates agree: if EstimateIsFeePaidEnough holds before signing, IsFeePaidEnough holds after unsigned
+    inputs have received scripts no longer than the dummy (proved for the ordinals flows, stated here where it
+    belongs) *)
+Theorem C11_estimate_enough_implies_signed_enough : forall T A q,
+  wf_tx T -> ~ ambiguous T ->
+  estimate_is_fee_paid_enough T q = FOk true ->
+  tx_outs A = tx_outs T -> Forall2 OrdProofs.short_signed (tx_ins T) (tx_ins A) ->
+  (forall te, estimated_final_tx T = FOk te -> OrdProofs.fee_fits q te) ->
+  is_fee_paid_enough A q = FOk true.
+Proof. exact OrdProofs.signed_fee_enough. Qed.
+Print Assumptions C11_estimate_enough_implies_signed_enough.
 
 (** non-vacuity: a partially signed 2-in / 2-out transaction with a data output meets every hypothesis; the
     maximal signature (r = 2^256-1, s = n/2) reaches the bound exactly: 71-byte DER, estimate = signed size *)
